@@ -37,3 +37,15 @@ Theorem C06_data_check_rejects_early_delivery :
     [[ODeliver 7]] = [60].
 Proof. vm_compute. reflexivity. Qed.
 Print Assumptions C06_data_check_rejects_early_delivery.
+
+(* the function bin/check evaluates on the implementation's observations (ConnCheck.check_C06:
+   model = implementation?, and the monitor read off the observations themselves - states from
+   the hook snapshots, the stored SHIP id from the id reports) returns no failure code on the
+   model's own observations, for every role, ids and event list: what is demanded of the
+   implementation is exactly what is proved of the model *)
+From Ship Require Import ConnCheck ConnImpl.
+Theorem C06_checker_accepts_every_model_run :
+  forall (r : role) (stored local : bytes) (es : list eventx),
+    check_C06 (model_case r stored local es) = [].
+Proof. intros r s l es. pose proof (checkers_accept_model r s l es) as H. cbv zeta in H. tauto. Qed.
+Print Assumptions C06_checker_accepts_every_model_run.
